@@ -95,6 +95,23 @@ def generate(rng, tier):
         xi = sorted({a, b} | {rng.randint(a + 1, b - 1) for _ in range(n - 2)})
         for q in [xi[0], xi[-1]] + [rng.randint(a, b) for _ in range(6)] + [x + d for x in xi[1:-1] for d in (-1, 0, 1)][:9]:
             cases.append(case_i(xi, q, rng.choice(gen.LAYS_1D)))
+    # integer axes of one sign and large magnitude (epoch seconds in i32, nanosecond timestamps in i64, axes ending at the largest value):
+    # span and quotient are small, but `first + last`, `2 * q`, `q * n` do not fit the type (seed C11-r9m1: the guess anchored at the end
+    # nearer to the query, decided by `x < (first + last) / 2` in the element type)
+    for _ in range(reps):
+        n = rng.choice([3, 4, 6, 10, 25])
+        for tag, mk, base in (("J", case_j, rng.choice([1_700_000_000, 2 ** 31 - 1 - 3600 * 30, -(2 ** 31) + 5, -1_900_000_000])),
+                              ("I", case_i, rng.choice([4_700_000_000_000_000_000, 2 ** 63 - 1 - 10 ** 6, -(2 ** 63) + 7, -(2 ** 62) - 12345]))):
+            step = rng.choice([1, 60, 3600]) if tag == "J" else rng.choice([1, 1000, 10 ** 4])
+            xs = [base]
+            for _ in range(n - 1):
+                xs.append(xs[-1] + step * rng.choice([1, 1, 2, 5]))
+            lim = 2 ** 31 - 1 if tag == "J" else 2 ** 63 - 1
+            if xs[-1] > lim:
+                continue
+            qs = [xs[0], xs[-1]] + [rng.randint(xs[0], xs[-1]) for _ in range(5)] + [xs[k] for k in (1, n // 2, n - 2)]
+            for q in qs:
+                cases.append(mk(xs, q, rng.choice(gen.LAYS_1D)))
     # tiny scales: the quotient (n-1)/span is close to the largest finite value (but finite), knots a few subnormal steps apart inside
     # wide gaps — anything that forms the quotient of a *sub-range* (a second interpolated guess, say) overflows (seed C11-r8m1)
     for _ in range(reps):
@@ -115,7 +132,7 @@ def generate(rng, tier):
         S = rng.choice(["Q", "F", "I"])
         two = rng.random() < 0.3
         def axis(n):
-            return gen.axis_q(rng, n) if S == "Q" else gen.axis_f(rng, n, rng.choice(["random", "uniform", "geometric", "unit", "indexlike"])) if S == "F" else gen.axis_i(rng, n)
+            return gen.axis_q(rng, n) if S == "Q" else gen.axis_f(rng, n, rng.choice(["random", "uniform", "geometric", "unit", "indexlike", "tail"])) if S == "F" else gen.axis_i(rng, n)
         def sweep(ax):
             qs = []
             for a, b in zip(ax, ax[1:]):
